@@ -71,9 +71,10 @@ func (a *c12Asm) assemble(na datamodel.NodeAssembler, v val.V, depth int) error 
 		if err != nil {
 			return fmt.Errorf("BeginMap: %w", err)
 		}
-		for i, e := range v.Ents {
+		inject := func(i int) error {
 			for _, in := range a.inj[idx] {
-				if in.Pos%max(len(v.Ents), 1) == i && i >= 1 {
+				// before entry i; i == len(v.Ents): after the last entry, so that Finish is the very next call
+				if (i < len(v.Ents) && in.Pos%max(len(v.Ents), 1) == i && i >= 1) || (i == len(v.Ents) && i >= 1 && (in.Pos+in.Which)%3 == 0) {
 					dup := v.Ents[in.Which%i].K
 					var rerr error
 					how := ""
@@ -104,6 +105,12 @@ func (a *c12Asm) assemble(na datamodel.NodeAssembler, v val.V, depth int) error 
 					}
 				}
 			}
+			return nil
+		}
+		for i, e := range v.Ents {
+			if err := inject(i); err != nil {
+				return err
+			}
 			var va datamodel.NodeAssembler
 			switch a.prog.Next(3) {
 			case 0:
@@ -125,6 +132,9 @@ func (a *c12Asm) assemble(na datamodel.NodeAssembler, v val.V, depth int) error 
 			if err := a.assemble(va, e.V, depth+1); err != nil {
 				return err
 			}
+		}
+		if err := inject(len(v.Ents)); err != nil {
+			return err
 		}
 		if err := ma.Finish(); err != nil {
 			return fmt.Errorf("map Finish: %w", err)
